@@ -6,11 +6,66 @@ import (
 	"github.com/diskfs/go-diskfs/internal/vp"
 )
 
-// probe
-func VP_C14_clock_probe() {
-	os.Setenv("SOURCE_DATE_EPOCH", "1234567891")
-	t := GetTime()
-	vp.Assert(vp.NondetSources() == 0, "no nondeterminism source consulted")
-	vp.Assert(t.Unix() == 1234567891, "time is the epoch")
-	vp.Cover("done")
+// C14 (clock): with SOURCE_DATE_EPOCH set to a decimal number, GetTime - the only clock the FAT
+// directory code reads - never looks at the wall clock and returns exactly that second, in UTC.
+
+// c14Value sets SOURCE_DATE_EPOCH to <prefix><n arbitrary digits> (prefix: optional '-' and concrete
+// leading digits, case-split) and returns the number it denotes.
+func c14Value(prefix string, n int) int64 {
+	b := []byte(prefix)
+	neg := false
+	var v int64
+	for i := 0; i < len(prefix); i++ {
+		if prefix[i] == '-' {
+			neg = true
+			continue
+		}
+		v = v*10 + int64(prefix[i]-'0')
+	}
+	for i := 0; i < n; i++ {
+		d := vp.U8("digit"+string(rune('a'+i))) % 10 // every digit value; the range is visible to the engine without a solver call
+		b = append(b, '0'+d)
+		v = v*10 + int64(d)
+	}
+	if neg {
+		v = -v
+	}
+	os.Setenv("SOURCE_DATE_EPOCH", string(b))
+	return v
+}
+
+func c14Clock(prefix string, n int) {
+	v := c14Value(prefix, n)
+	t1 := GetTime()
+	t2 := GetTime()
+	vp.Assert(t1.Unix() == v, "GetTime returns the second named by SOURCE_DATE_EPOCH")
+	vp.Assert(t1.Nanosecond() == 0, "no sub-second part")
+	vp.Assert(t1.Equal(t2), "two calls return the same instant")
+	_, off := t1.Zone()
+	vp.Assert(off == 0, "the time is in UTC (no dependence on the local time zone)")
+	vp.Assert(vp.NondetSources() == 0, "with SOURCE_DATE_EPOCH set the wall clock is not consulted")
+	vp.Cover("epoch honoured")
+}
+
+func VP_C14_clock_epoch_small()  { c14Clock("", vp.Bound("digits", 3, 5)) }        // 0 .. 999: "0", leading zeros, 1970
+func VP_C14_clock_epoch_1980()   { c14Clock("0315532", vp.Bound("digits", 3, 4)) } // around the FAT epoch 1980-01-01 = 315532800
+func VP_C14_clock_epoch_today()  { c14Clock("1700000", vp.Bound("digits", 3, 4)) } // 2023
+func VP_C14_clock_epoch_2108()   { c14Clock("4354819", vp.Bound("digits", 3, 4)) } // past the FAT range (2108-01-01 = 4354819200)
+func VP_C14_clock_epoch_neg()    { c14Clock("-", vp.Bound("digits", 3, 5)) }       // before 1970
+func VP_C14_clock_epoch_maxint() { c14Clock("9223372036854775", 2) }               // up to 19 digits, below 2^63
+
+// VP_C14_clock_detector is NOT part of the claim: it shows that the nondeterminism log is not blind.
+// Without a (valid) SOURCE_DATE_EPOCH GetTime falls back to the wall clock, as documented, and the
+// engine sees it (otherwise this harness has no reachable Cover and is reported as vacuous).
+func VP_C14_clock_detector() {
+	os.Setenv("SOURCE_DATE_EPOCH", "12x4")
+	_ = GetTime()
+	if vp.NondetSources() > 0 {
+		vp.Cover("invalid SOURCE_DATE_EPOCH: wall clock consulted and logged")
+	}
+	os.Unsetenv("SOURCE_DATE_EPOCH")
+	_ = GetTime()
+	if vp.NondetSources() > 1 {
+		vp.Cover("no SOURCE_DATE_EPOCH: wall clock consulted and logged")
+	}
 }
